@@ -153,10 +153,35 @@ def run_rewrites(ctx):
             ctx.violation('rewritten-file-differs-from-fresh-process', {**det, 'second_write': o2[0] if o2[0] == 'ok' else o2,
                                                                        'fresh_write': fr['outs'][-1], 'first_difference_at': pos,
                                                                        'in_history': a[max(0, pos - 16):pos + 32].hex(), 'fresh_process': b[max(0, pos - 16):pos + 32].hex()})
-    # known finding D9 (also listed under C13): the same DLISFile written again with OTHER data keeps the index metadata of the first write
+    # the cast dtype of a channel changed through its public setter between two writes: the second file is the file of a fresh
+    # specification created with that cast (no encoded attribute bytes, no representation code kept from the first write)
     import numpy as np
     import impl
     from dliswriter import DLISFile
+
+    def cast_spec(cast, width):
+        df0 = DLISFile()
+        lf0 = df0.add_logical_file()
+        lf0.add_origin('O', file_set_number=1, creation_time='2020/01/01 00:00:00')
+        shape = (4,) if width is None else (4, width)
+        c0 = lf0.add_channel('A', data=(np.arange(int(np.prod(shape))).reshape(shape) * 1.5).astype(np.float64), cast_dtype=cast)
+        c1 = lf0.add_channel('B', data=np.arange(4, dtype=np.int32))
+        lf0.add_frame('F', channels=[c0, c1])
+        return df0, c0
+    for first, second in ((None, np.float32), (np.float32, np.float64), (None, np.int32), (np.int16, np.uint8), (np.float32, None)):
+        for width in (None, 3):
+            dfh, ch = cast_spec(first, width)
+            w1 = impl.outcome(lambda: impl.write_real(dfh))
+            if second is None:
+                continue            # cast_dtype = None after a write re-adopts the source dtype: the derived code persists (D9 family), not compared
+            ch.cast_dtype = second
+            w2 = impl.outcome(lambda: impl.write_real(dfh))
+            wf = impl.outcome(lambda: impl.write_real(cast_spec(second, width)[0]))
+            ctx.count('K-rewrite', key=('cast', str(first), str(second), width))
+            if w1[0] != 'ok' or w2[0] != wf[0] or (w2[0] == 'ok' and w2[1]['file'] != wf[1]['file']):
+                ctx.violation('file-after-a-cast-dtype-change-differs-from-fresh-specification',
+                              {'first_cast': str(first), 'second_cast': str(second), 'width': width, 'second_write': w2[0], 'fresh': wf[0]})
+    # known finding D9 (also listed under C13): the same DLISFile written again with OTHER data keeps the index metadata of the first write
 
     def spec():
         df = DLISFile()
